@@ -13,7 +13,7 @@ import (
 func init() {
 	register(&propDef{
 		id: "C07", level: "other", run: runC07,
-		explanation: "Decided: shape-level encodability of everything the decoder can produce, as a triaged census. (R1) every origin of a non-nil error in the functions reachable from Encode is enumerated from SSA and classified by the condition that guards it: a write into the encoder's own bytes.Buffer (cannot fail), a hash write (cannot fail), the caller's io.Writer (propagated; allowed), an accessor/file-type mismatch (impossible for a File whose init succeeded, C03-4/5), or a table condition (not a string / array of strings / unknown kind) that is false for every field of every message type a container or the File hosts; the UTF-8 check of encodeString cannot be discharged because the decoder's string arms establish no UTF-8 invariant (known finding). (R2) every potential panic site of the same functions (explicit panic, non-comma-ok type assertion, dynamic slice bound, nil field pointer, reflect accessors) is enumerated and discharged by a named C15 obligation or reported. (R3) invalid omission: getEncodeMesgDef compares each field with the field of the same index of the all-invalid message of the same number. (R4) expansion is order-safe for a second decode: every expansion depends only on its own source's validity and a destination that is itself a source is filled before its components are taken. (R5) every visited message is written: encodeDefAndDataMesg succeeds only behind writeMesg or for a nil pointer, encodeFile's list loop writes on every path round the loop and is left only by its header test or an error, and the definition lists the profile's own rows. NOT decided: that the re-decoded content is equal, the fixpoint of a second round trip, nil elements placed in containers through the public API.",
+		explanation: "Decided: shape-level encodability of everything the decoder can produce, as a triaged census. (R1) every origin of a non-nil error in the functions reachable from Encode is enumerated from SSA and classified by the condition that guards it: a write into the encoder's own bytes.Buffer (cannot fail), a hash write (cannot fail), the caller's io.Writer (propagated; allowed), an accessor/file-type mismatch (impossible for a File whose init succeeded, C03-4/5), or a table condition (not a string / array of strings / unknown kind) that is false for every field of every message type a container or the File hosts; the UTF-8 check of encodeString cannot be discharged because the decoder's string arms establish no UTF-8 invariant (known finding). (R2) every potential panic site of the same functions (explicit panic, non-comma-ok type assertion, dynamic slice bound, nil field pointer, reflect accessors) is enumerated and discharged by a named C15 obligation or reported. (R3) invalid omission: getEncodeMesgDef compares each field with the field of the same index of the all-invalid message of the same number. (R4) expansion is order-safe for a second decode: every expansion depends only on its own source's validity and a destination that is itself a source is filled before its components are taken. (R5) every visited message is written: encodeDefAndDataMesg succeeds only behind writeMesg or for a nil pointer, encodeFile's list loop writes on every path round the loop and is left only by its header test or an error, and the definition lists the profile's own rows. NOT decided: that the re-decoded content is equal, the fixpoint of a second round trip, nil elements placed in containers through the public API. The record-layout rules (C05-R3-def-layout/-header-bytes) and C05-R3-no-silent-skip run here as well: what Encode writes is what Decode reads back.",
 		trusted:     []string{"bytes.Buffer writes and hash.Hash writes never return an error", "C15 (tables agree with struct types) and C03 (file-type pairing)", "documented reflect panic conditions"},
 	})
 }
@@ -52,6 +52,10 @@ func runC07(c *Ctx, r *Report) {
 	encodeDefCovers(c, r, "C07-R5-every-message-written")
 	c07EncodeReadOnly(c, r)
 	encodeNoRowCopies(c, r, "C07-R5-every-message-written")
+	// what Encode writes is what Decode reads back: the record layouts (definition header, architecture byte, byte order
+	// of the global number, field triples) and no unit reported written that was skipped
+	c05Headers(c, r)
+	c05NoSilentSkip(c, r)
 	roots, missing := c.rootFuncs(encodeRoots)
 	for _, m := range missing {
 		r.fail("C07-roots", m, "", "not found")
@@ -158,7 +162,15 @@ func runC07(c *Ctx, r *Report) {
 				case "string-array":
 					r.check(len(strArr) == 0, "C07-R1-error-sites", key, pos, "no hosted message has a string-array field", fmt.Sprintf("hosted messages carry string-array fields %v which writeField refuses to encode", strArr))
 				case "unknown-kind":
-					r.check(len(badKind) == 0, "C07-R1-error-sites", key, pos, "all table kinds are 0..4 (C15-2)", fmt.Sprintf("kinds beyond 4 in %v", badKind))
+					// the error is reached only when Kind() differs from every declared kind, and the tables hold no other
+					excl, _, all := kindsExcludedAt(fn, b)
+					missing := ""
+					for _, k := range all {
+						if !excl[k] {
+							missing += fmt.Sprintf(" %d", k)
+						}
+					}
+					r.check(len(badKind) == 0 && missing == "" && len(all) > 0, "C07-R1-error-sites", key, pos, fmt.Sprintf("reached only when the kind is none of the %d declared kinds, and all table kinds are 0..4 (C15-2)", len(all)), fmt.Sprintf("the encoder returns an error for field kinds%s (not excluded on the way to this error) or the tables hold kinds beyond 4 %v: Encode fails for a File that Decode produced", missing, badKind))
 				case "utf8":
 					r.fail("C07-R1-error-sites", "encodeString/utf8.Valid", pos, "encodeString rejects byte strings that are not valid UTF-8 (also after truncation to size-1 splits a rune), but the decoder's string arms copy arbitrary bytes: Encode fails on Files that Decode accepted")
 				case "def-nil":
@@ -327,6 +339,10 @@ func c07Classify(c *Ctx, fn *ssa.Function, b *ssa.BasicBlock) (string, string) {
 			}
 		case strings.Contains(p, ".Kind") && strings.Contains(p, "=="):
 			if onFalse {
+				return "unknown-kind", ""
+			}
+		case strings.Contains(p, ".Kind") && strings.Contains(p, "!="):
+			if onTrue {
 				return "unknown-kind", ""
 			}
 		case (strings.HasSuffix(p, "!=nil)") || strings.HasSuffix(p, "==nil)")) && (strings.Contains(p, "encodeMesgDef") || strings.Contains(p, "alloc[def") || isDefPtrCompare(cond)):
@@ -849,10 +865,11 @@ func encodeNoRowCopies(c *Ctx, r *Report, rule string) {
 }
 
 // c07ReflectStructural: preconditions that are visible in the code around the call.
-//   X.Index(i): i is the counter of a loop `for i = 0; i < X.Len(); i++` over the same X;
-//   X.Len():    X is a slice by a dominating `X.Kind() == reflect.Slice` test on the same X, or X
-//               is a parameter and at every call site of this function in the module the argument
-//               passes the same rule in the caller.
+//
+//	X.Index(i): i is the counter of a loop `for i = 0; i < X.Len(); i++` over the same X;
+//	X.Len():    X is a slice by a dominating `X.Kind() == reflect.Slice` test on the same X, or X
+//	            is a parameter and at every call site of this function in the module the argument
+//	            passes the same rule in the caller.
 func c07ReflectStructural(c *Ctx, fn *ssa.Function, ci ssa.CallInstruction, name string) (string, bool) {
 	args := ci.Common().Args
 	if len(args) == 0 {
